@@ -79,7 +79,7 @@ class OutsideTimeModule:
     harness injected since the last exit -- never wall-clock noise."""
 
     def __init__(self):
-        self.value = T0
+        self.value = 1024.0  # small base: bumps of micro-seconds must not be lost to float rounding
 
     def time(self):
         return self.value
@@ -100,7 +100,7 @@ def install(sim):
     """Bind the seams to ``sim``.  Called once per forked run."""
     global _SIM
     _SIM = sim
-    OUTSIDE.value = T0
+    OUTSIDE.value = 1024.0
     import syne_tune.tuner as m_tuner
     import syne_tune.util as m_util
     import syne_tune.tuning_status as m_status
